@@ -278,4 +278,14 @@ theorem closed_listener_releases_loop (H : GrpcMux.HandoffParams) (hH : H.Good) 
 leaves the loop waiting for ever -/
 theorem plain_send_wedges_witness : GrpcMux.loopPastHandoff ⟨false⟩ false true = false := by decide
 
+/-- **A closed listener's announced stream does not reach another listener** (host side): whatever state the closed
+listener was in, the listener unblocked next accepts the stream announced for ITS id. -/
+theorem next_listener_gets_own_stream (C : GrpcMux.ClientCloseParams) (hC : C.Good) (tokenPending : Bool) (closed next : Nat) :
+    GrpcMux.nextAccepts C tokenPending closed next = some (GrpcMux.Tag.brokered next) := by
+  have hd : C.discardsAnnounced = true := hC
+  simp [GrpcMux.nextAccepts, GrpcMux.queueAtNextAccept, hd]
+
+/-- Witness: without the discard, the listener of 80 accepts the stream that was dialled for 70 -/
+theorem stale_stream_witness : GrpcMux.nextAccepts ⟨false⟩ true 70 80 = some (GrpcMux.Tag.brokered 70) := by decide
+
 end GoPlugin.Props.C09
